@@ -54,7 +54,53 @@ class Flow:
             return self.bind(p['subs'][0]['pat'], val[1] if val[0] == 'some' else ('some_payload', val), env)
         if p['k'] == 'Variant' and canon(p.get('adt', '')) == 'std::option::Option' and p['variant'] == 'None': return True
         return False
+    @staticmethod
+    def _returns(e):
+        """the value expression if e (a block or expression) ends by `return value`, else None"""
+        while e['k'] in ('Use', 'NeverToAny'): e = e['source']
+        if e['k'] == 'Return': return e.get('value')
+        if e['k'] == 'Block':
+            if e.get('expr') is not None: return Flow._returns(e['expr'])
+            if e['stmts'] and e['stmts'][-1]['k'] == 'Expr': return Flow._returns(e['stmts'][-1]['expr'])
+        return None
+    @staticmethod
+    def _has_return(e):
+        """a `return` that is not the error exit of a `?`"""
+        def rec(x):
+            if isinstance(x, list): return any(rec(y) for y in x)
+            if not isinstance(x, dict): return False
+            if x.get('k') == 'Return': return True
+            if x.get('k') == 'Match' and 'TryDesugar' in str(x.get('source')): return rec(x.get('scrutinee'))
+            return any(rec(v) for k_, v in x.items() if isinstance(v, (dict, list)) and k_ not in ('ty', 'pat'))
+        return rec(e)
+    def fn_body(self, body, env, depth):
+        """value of a function body: a leading `if C { ..; return A; }` statement is `if C { ..; A } else { rest of the body }`"""
+        b = body
+        while b['k'] in ('Use', 'NeverToAny'): b = b['source']
+        if b['k'] != 'Block': return self.ev(body, env, depth)
+        for i, s in enumerate(b['stmts']):
+            if s['k'] != 'Expr' or not self._has_return(s['expr']): continue
+            e = s['expr']
+            while e['k'] in ('Use', 'NeverToAny'): e = e['source']
+            rv = self._returns(e['then']) if e['k'] == 'If' and e.get('else') is None else None
+            if rv is None or any(self._has_return(x.get('init') or x.get('expr') or {}) for x in b['stmts'][:i]): return ('unknown', 'early return')
+            th = e['then']
+            while th['k'] in ('Use', 'NeverToAny'): th = th['source']
+            if th['k'] != 'Block': return ('unknown', 'early return')
+            th_stmts = th['stmts'] if th.get('expr') is not None else th['stmts'][:-1]
+            if any(self._has_return(x.get('init') or x.get('expr') or {}) for x in th_stmts): return ('unknown', 'early return')
+            syn = {'k': 'Block', 'stmts': b['stmts'][:i], 'ty': b.get('ty'), 'loc': b.get('loc'),
+                   'expr': {'k': 'If', 'cond': e['cond'], 'ty': b.get('ty'), 'loc': e.get('loc'),
+                            'then': {'k': 'Block', 'stmts': th_stmts, 'expr': rv, 'ty': b.get('ty'), 'loc': th.get('loc')},
+                            'else': {'k': 'Block', 'stmts': b['stmts'][i + 1:], 'expr': b.get('expr'), 'ty': b.get('ty'), 'loc': b.get('loc'), '#fn_body': True}}}
+            return self.block(syn, env, depth)
+        if b.get('expr') is not None and self._has_return(b['expr']) and self._returns(b['expr']) is None: return ('unknown', 'early return')
+        return self.block(b, env, depth)
     def block(self, b, env, depth):
+        if b.get('#fn_body'):
+            b = dict(b); del b['#fn_body']
+            return self.fn_body(b, env, depth)
+        if any(s['k'] == 'Expr' and self._has_return(s['expr']) for s in b['stmts']): return ('unknown', 'early return')
         env = dict(env)
         reassigned = set()
         for x in walk(b):
@@ -99,7 +145,7 @@ class Flow:
             ok = True
             for p, a in zip(t['params'], args):
                 if 'pat' not in p or not self.bind(p['pat'], a, env2): ok = False
-            if ok: return self.ev(t['body'], env2, depth + 1)
+            if ok: return self.fn_body(t['body'], env2, depth + 1)
         return ('call', name, tuple(args))
     def ev(self, e, env, depth=0):
         k = e['k']
@@ -111,6 +157,7 @@ class Flow:
         if k == 'Field': return ('field', self.ev(e['lhs'], env, depth), e.get('field_name') if e.get('field_name') is not None else e.get('field'))
         if k == 'Tuple': return ('tuple', tuple(self.ev(f, env, depth) for f in e['fields']))
         if k == 'Block': return self.block(e, env, depth)
+        if k == 'Return' and e.get('value') is not None: return ('unknown', 'return')
         if k == 'Adt':
             adt = canon(e['adt'])
             if adt == 'std::option::Option':
